@@ -473,6 +473,41 @@ class ChoiceOf:
         self.lst, self.node = lst, node
 
 
+def chooser_instances(prog, meth: str = "choose_production_alternatives") -> list[FunctionInfo]:
+    """Every chooser of the decider hierarchy *as it runs in a class*: the definitions of *meth*, plus - for a class that inherits
+    the method but overrides a hook the inherited body calls through self (template method) - the inherited definition with that
+    class as receiver (a copy of the FunctionInfo whose .cls is the receiving class, so that helper calls resolve from there)."""
+    import dataclasses
+    from ..frontend import is_stub
+    res: list[FunctionInfo] = []
+    for c in prog.subclasses(DECIDER, strict=True):
+        f = c.methods.get(meth)
+        if f is not None:
+            if not is_stub(f.node):
+                res.append(f)
+            continue
+        g = prog.lookup_method(c, meth)
+        if g is None or g.cls is None or is_stub(g.node):
+            continue
+        seen: set[str] = set()
+        todo = [g]
+        overridden = False
+        while todo:
+            h = todo.pop()
+            for x in walk_local(h.node):
+                if isinstance(x, ast.Call) and is_self_attr(x.func) and x.func.attr not in seen:
+                    seen.add(x.func.attr)
+                    t = prog.lookup_method(c, x.func.attr)
+                    if t is None:
+                        continue
+                    if prog.lookup_method(g.cls, x.func.attr) is not t:
+                        overridden = True
+                    todo.append(t)
+        if overridden:
+            res.append(dataclasses.replace(g, cls=c))
+    return res
+
+
 def _decider_paths(ctx: Ctx, f: FunctionInfo):
     """abstractly interpret a chooser: offered list -> filtered lists -> random.choice(<list>) / <list>[index]"""
     from ..absint import interp, SeqV
@@ -564,7 +599,7 @@ def filter_rule(ctx: Ctx, rid: str, require_equivalence_everywhere: bool = False
     from ..absint import truth, SeqV
     prog = ctx.prog
     n = 0
-    for f in prog.implementations(DECIDER, "choose_production_alternatives"):
+    for f in chooser_instances(prog):
         cls = f.cls
         reads_limit = any(isinstance(x, ast.Attribute) and x.attr == "max_depth" for x in walk_local(f.node))
         if not reads_limit:
